@@ -39,28 +39,29 @@ def side_take_n(prog, f, sy, e):
 
 
 PARSE_RESIDUE = {
-    ("hash::algorithms::parse_block_size_from_bytes", "index(*bytes, core::ops::RangeFrom::RangeFrom{((<core::iter::Enumerate<I> as core::iter::Iterator>::next(&iter) as Some).0.0 Add 1)})"):
-        ("`index` is the Enumerate index of the byte just matched in `bytes`, so index + 1 <= bytes.len()", side_enumerate_same_slice),
-    ("hash::algorithms::parse_block_hash_from_bytes", "index(*bytes, core::ops::RangeFrom::RangeFrom{index})"):
-        ("`index` counts bytes already yielded by the iterator over `bytes`", side_index_counts_consumed),
-    ("hash::algorithms::parse_block_hash_from_bytes", "index(*bytes, core::ops::RangeFrom::RangeFrom{result.1})"):
-        ("result.1 is `index` or, when a terminating byte was yielded but not counted, `index + 1`; both <= bytes.len()", side_index_counts_consumed),
-    ("hash::algorithms::parse_block_hash_from_bytes", "bounds(len=N, index=len)"):
+    # keys: (function suffix, name-independent edge shape) - see panic.shape()
+    ("hash::algorithms::parse_block_size_from_bytes", "index(arg1, RangeFrom)"):
+        ("the re-slice starts at the Enumerate index of the byte just matched + 1, over the same slice, so start <= len", side_enumerate_same_slice),
+    ("hash::algorithms::parse_block_hash_from_bytes", "index(arg4, RangeFrom)"):
+        ("the re-slice starts at the count of bytes already yielded by the iterator over the same slice (or that count + 1 when a "
+         "terminating byte was yielded but not counted)", side_index_counts_consumed),
+    ("hash::algorithms::parse_block_hash_from_bytes", "bounds[N]"):
         ("(strict parser) at most N symbols are yielded", side_take_n),
-    ("hash::FuzzyHashData::<S1, S2, NORM>::block_hash_1", "index(&*self.blockhash1, core::ops::RangeTo::RangeTo{(*self.len_blockhash1 as usize)})"):
+    ("hash::FuzzyHashData::<S1, S2, NORM>::block_hash_1", "index(arg1.blockhash1, RangeTo)"):
         ("object invariant len_blockhash1 <= S1 of the raw hash just produced by the parser (its stores are guarded by len < N)", None),
-    ("hash::FuzzyHashData::<S1, S2, NORM>::block_hash_2", "index(&*self.blockhash2, core::ops::RangeTo::RangeTo{(*self.len_blockhash2 as usize)})"):
+    ("hash::FuzzyHashData::<S1, S2, NORM>::block_hash_2", "index(arg1.blockhash2, RangeTo)"):
         ("object invariant len_blockhash2 <= S2 of the raw hash just produced by the parser", None),
-    ("hash_dual::algorithms::compress_block_hash_with_rle", "bounds(len=SZ_BH, index=len)"):
-        ("`len` counts stored symbols <= blockhash_in.len() <= SZ_BH", side_compress_inputs_bounded),
-    ("hash_dual::algorithms::compress_block_hash_with_rle", "index_mut(blockhash_out, core::ops::RangeFrom::RangeFrom{len})"):
-        ("len <= blockhash_in.len() <= SZ_BH", side_compress_inputs_bounded),
-    ("hash_dual::algorithms::compress_block_hash_with_rle", "index_mut(rle_block_out, core::ops::RangeFrom::RangeFrom{rle_offset})"):
-        ("rle_offset <= ceil(SZ_BH / 4) <= SZ_RLE for raw inputs of at most SZ_BH symbols (const-asserted sizes)", side_and(side_compress_inputs_bounded, side_only_called_from("hash_dual::algorithms::update_rle_block", ("compress_block_hash_with_rle",)))),
-    ("hash_dual::algorithms::update_rle_block", "index_mut(rle_block, core::ops::Range::Range{rle_offset, (rle_offset Add (((len Sub MAX_SEQUENCE_SIZE) Sub 1) Div MAX_RUN_LENGTH))})"):
+    ("hash_dual::algorithms::compress_block_hash_with_rle", "bounds[SZ_BH]"):
+        ("the store index counts stored symbols <= blockhash_in.len() <= SZ_BH", side_compress_inputs_bounded),
+    ("hash_dual::algorithms::compress_block_hash_with_rle", "index_mut(arg1, RangeFrom)"):
+        ("stored length <= blockhash_in.len() <= SZ_BH", side_compress_inputs_bounded),
+    ("hash_dual::algorithms::compress_block_hash_with_rle", "index_mut(arg2, RangeFrom)"):
+        ("encoder offset <= ceil(SZ_BH / 4) <= SZ_RLE for raw inputs of at most SZ_BH symbols (const-asserted sizes)",
+         side_and(side_compress_inputs_bounded, side_only_called_from("hash_dual::algorithms::update_rle_block", ("compress_block_hash_with_rle",)))),
+    ("hash_dual::algorithms::update_rle_block", "index_mut(arg1, Range)"):
         ("RLE capacity ceil(SZ_BH/4) suffices when runs come from a raw block hash of at most SZ_BH symbols: only compress_block_hash_with_rle may call the encoder, with bounded inputs",
          side_and(side_only_called_from("hash_dual::algorithms::update_rle_block", ("compress_block_hash_with_rle",)), side_compress_inputs_bounded)),
-    ("hash_dual::algorithms::update_rle_block", "bounds(len=SZ_RLE, index=(rle_offset Add (((len Sub MAX_SEQUENCE_SIZE) Sub 1) Div MAX_RUN_LENGTH)))"):
+    ("hash_dual::algorithms::update_rle_block", "bounds[SZ_RLE]"):
         ("same capacity argument as the range fill",
          side_and(side_only_called_from("hash_dual::algorithms::update_rle_block", ("compress_block_hash_with_rle",)), side_compress_inputs_bounded)),
 }
